@@ -29,6 +29,11 @@ type refReceiver struct {
 	// MaxReq > 0 limits the number of requests of the scripts that are sent
 	// after the listing (huge views).
 	MaxReq int
+	// Sequential: a receiver with one thread of control: it reads the STAT
+	// stream to the end marker, then writes all its requests, and only then
+	// reads again. Nothing in the protocol text tells it to do otherwise.
+	Sequential bool
+	reqsDone   chan struct{}
 
 	mu        sync.Mutex
 	cond      *sync.Cond
@@ -51,6 +56,7 @@ type refReceiver struct {
 func newRefReceiver(mode, invalid string, r *core.Rand) *refReceiver {
 	rr := &refReceiver{Mode: mode, Invalid: invalid, R: r, data: map[uint32]*bytes.Buffer{}, term: map[uint32]int{}, requested: map[uint32]bool{}, chunks: map[uint32]int{}}
 	rr.cond = sync.NewCond(&rr.mu)
+	rr.reqsDone = make(chan struct{})
 	return rr
 }
 
@@ -83,6 +89,13 @@ func (rr *refReceiver) reader(s fsutil.Stream) {
 				rr.violate("STAT (%v) after the end-of-stats marker", p.Stat)
 			} else if p.Stat == nil {
 				rr.endSeen = true
+				if rr.Sequential {
+					// stop reading until every request has been written
+					rr.cond.Broadcast()
+					rr.mu.Unlock()
+					<-rr.reqsDone
+					continue
+				}
 			} else {
 				if n := len(rr.stats); n > 0 && tree.CmpPath(rr.stats[n-1].Path, p.Stat.Path) >= 0 {
 					rr.violate("STAT %q after %q: not strictly ascending in protocol path order", p.Stat.Path, rr.stats[n-1].Path)
@@ -225,13 +238,16 @@ func (rr *refReceiver) run(ctx context.Context, s fsutil.Stream) error {
 				return err
 			}
 			sent[id] = true
-			if rr.Mode != "burst" && rr.R.P(1, 3) {
+			if rr.Mode != "burst" && !rr.Sequential && rr.R.P(1, 3) {
 				// sometimes wait for this file before asking for the next
 				id := id
 				rr.waitFor(func() bool { return rr.term[id] > 0 })
 			}
 			_ = k
 		}
+	}
+	if rr.Sequential {
+		close(rr.reqsDone)
 	}
 	// invalid request, issued once everything legal is on its way
 	if rr.Invalid != "" {
